@@ -198,6 +198,15 @@ def run(R, only=None):
         seen = set()
         for m in minimal:
             cls = corruption_class(m)
+            if cls.startswith("other:") and any(x[0] == "objarray" and len(x[1]) != 1 and any(c[0] == "ref" for c in x[2]) for x in subspecs(m)):
+                # an object array of rank 0 / >= 2 whose cell is a REFERENCE to an earlier list/tuple/set (the array alone, with the
+                # reference unresolved, does not fail, so the enclosing value is the minimal failing part): it is the D10 site when
+                # the array's shape is what changed
+                t0, t1 = recs[i].get("t0", ""), recs[i].get("load", "")
+                import re as _re
+                shapes = lambda t: _re.findall(r"s8:objarray \(([^)]*)\)", t)     # noqa: E731
+                if shapes(t0) != shapes(t1):
+                    cls = "objarray-of-sequences"
             if cls in seen:
                 continue
             seen.add(cls)
